@@ -8,12 +8,18 @@ import (
 	"verifsim/internal/c15"
 )
 
+var extra []func() []api.Check
+
 func All() []api.Check {
-	return []api.Check{
+	out := []api.Check{
 		c13.New(),
 		c14.New(),
 		c15.New(),
 	}
+	for _, f := range extra {
+		out = append(out, f()...)
+	}
+	return out
 }
 
 func Get(id string) api.Check {
